@@ -283,7 +283,7 @@ def aggregate(results):
            'outcomes': {}, 'faults': {}, 'probes': {}, 'strategies': {}, 'digests': {},
            'windows': set(), 'unknown_lines': 0, 'boards': 0, 'tables': {}, 'extra': {},
            'cov': {'calls': set(), 'cards': set(), 'headers': set(), 'voids': set(),
-                   'hand_sizes': set()},
+                   'hand_sizes': set(), 'contracts': set()},
            'compared_logs': 0, 'tasks': 0, 'exhaustive_parts': []}
     findings = []
     samples = []
